@@ -54,7 +54,7 @@ def case(draw):
     reason = draw(st.sampled_from(REASONS))
     return {"files": files, "reason": reason, "dot": draw(st.sampled_from([None, None, "force", "fallback", "skip"])),
             "multi": draw(st.booleans()), "forced_style": draw(st.one_of(st.none(), st.none(), st.sampled_from(sorted(S.STYLES)))),
-            "skip_existing": draw(st.integers(0, 5)) == 0, "order": draw(st.permutations(list(range(n))))}
+            "skip_existing": draw(st.integers(0, 5)) == 0, "order": draw(st.permutations(list(range(n)))), "mutex_pick": draw(st.integers(0, len(MUTEX) - 1))}
 
 
 def terminator_of(style):
@@ -226,10 +226,15 @@ def check(ctx, c):
         tree.rmtree(root)
 
 
+# every documented pair of mutually exclusive options, and the hidden American spelling of --skip-unrecognised in each of its pairs
+MUTEX = [["--single-line", "--multi-line"], ["--year", "2001", "--exclude-year"], ["--force-dot-license", "--fallback-dot-license"],
+         ["--skip-unrecognised", "--force-dot-license"], ["--skip-unrecognised", "--fallback-dot-license"], ["--style", "python", "--skip-unrecognised"],
+         ["--skip-unrecognized", "--force-dot-license"], ["--skip-unrecognized", "--fallback-dot-license"], ["--style", "python", "--skip-unrecognized"]]
+
+
 def draw_mutex(c):
-    k = len(c["files"]) + (1 if c["multi"] else 0)
-    return [["--single-line", "--multi-line"], ["--year", "2001", "--exclude-year"], ["--force-dot-license", "--fallback-dot-license"],
-            ["--skip-unrecognised", "--force-dot-license"]][k % 4]
+    k = c.get("mutex_pick", len(c["files"]) + (1 if c["multi"] else 0))
+    return MUTEX[k % len(MUTEX)]
 
 
 def replay(ctx, c):
